@@ -167,18 +167,11 @@ def jrefOf (mm : MMX) (o : Opts) (render : Path → Str) (roots : List (SNode Pa
 def jEncodeDoc (mm : MMX) (o : Opts) (render : Path → Str) (roots : List (SNode Path)) : Option (List JV) :=
   (mapRefsL (jrefOf mm o render roots) roots).map fun rs => rs.map (jEnc mm o true 0)
 
-mutual
-/-- `to_obj` registers a uuid in the resource but does not give it to the object -/
-def stripUuid {ρ : Type} : SNode ρ → SNode ρ
-  | .mk via cls _ slots kids => .mk via cls [] slots (stripUuidL kids)
-def stripUuidL {ρ : Type} : List (SNode ρ) → List (SNode ρ)
-  | [] => []
-  | k :: t => stripUuid k :: stripUuidL t
-end
-
+/-- (`to_obj` registers a uuid in the resource and, since the repair recorded in `known_findings.json`, keeps it on the
+object as the XMI loader does: the loaded forest carries the uuids it was written with) -/
 def jDecodeDoc (mm : MMX) (o : Opts) (parse : Str → Option Path) (doc : List JV) : Option (List (SNode Path)) :=
   match doc.mapM (jDec mm true [] 0) with
   | none => none
-  | some rs => (mapRefsL (resolveTok mm o parse rs) rs).map stripUuidL
+  | some rs => mapRefsL (resolveTok mm o parse rs) rs
 
 end JDoc
